@@ -11,11 +11,15 @@ from . import common
 
 THEOREM_FILES = ['NumqiProps/C01.lean']
 LEVEL = 'proof'
-RULE = ('one op = one (map, options, dims, theta) evaluated by the Float model and by numqi.manifold.to_* (numpy or torch, float32 or '
-        'float64 parameters, batch shape (), (1,), (k,), (k,l)); theta = scale*normal or per-entry log-uniform magnitudes with random '
-        'signs, |theta| up to the bound of the map (1e2; 10 for choleskyL; 80 for exp in float32), dims 2..6, all ranks, every method. '
-        'Inputs whose pre-factor matrix is ill-conditioned (cond > 1e3) are redrawn for the maps that orthonormalise through LAPACK. '
-        'An op is non-trivial when theta is not the zero vector; distinct = distinct op lines.')
+RULE = ('one op = one (map, options, dims, theta) evaluated by the Float model and by numqi.manifold.to_*; every theta is evaluated on BOTH '
+        'backends (numpy, torch) with float32 or float64 parameters and batch shape (), (1,), (k,), (k,l) (per spec: one float32 and one float64 '
+        'pick at least, batched shapes preferred; thorough: all 8 combinations, four passes). Rows: generic (scale*normal with scale log-uniform '
+        'in [1e-8, bound], per-entry log-uniform magnitudes, uniform O(1), the zero vector where legal) and extreme-but-in-range rows (all '
+        'entries within 2% of +bound / of -bound, per-row constant offsets in [-bound,bound], near-bound magnitudes with random signs); batches '
+        'of >= 2 samples are with probability 0.6 extreme batches (a +bound row and a -bound row in the same batch, the rest at per-row offsets). '
+        'Bounds: 1e2; 10 for choleskyL; 80 for exp and 10 for the exp/Cayley charts in float32. Inputs whose pre-factor matrix is ill-conditioned '
+        '(cond > 1e3, > 20 in float32) are redrawn for the maps that orthonormalise through LAPACK. dims 2..6, all ranks, every method. '
+        'The evidence histogram input-* counts the row kinds. distinct = distinct (op line, backend, dtype, batch rank).')
 TRUSTED = ['Lean 4.33 kernel', 'axioms: propext, Classical.choice, Quot.sound', 'Lean compiler and the C math library behind Float.exp/log/sin/cos/sqrt',
            'textbook numerics of NumqiModel.Manifold.Num (Gauss-Jordan inverse, Cholesky, scaling-and-squaring expm, Denman-Beavers inverse square root, '
            'Gram-Schmidt QR) — used by the driver only, a defect there shows as a disagreement',
